@@ -87,6 +87,7 @@ func containsStr(s, sub string) bool {
 func TestC10ConcurrentRequests(t *testing.T) {
 	col := stats.Get("C10.concurrent")
 	rapid.Check(t, func(t *rapid.T) {
+		sim.CaseStart(t)
 		w := sim.NewWorld()
 		defer w.Close()
 		a := w.AddNode("alice")
